@@ -565,7 +565,10 @@ func (w *worker) compactKey(key []byte, rawKey []byte, rev uint64) error {
 	err := w.store.Del(context.Background(), key)
 	if err != nil {
 		w.metricCli.EmitCounter("compact.err", 1)
-		w.updateSkippedRawKey(rawKey, rev, err)
+		// whatever the reason (an engine may report a write conflict, i.e. a failed condition, for a plain
+		// delete too): this version is still there, so nothing newer of this raw key may be deleted
+		klog.ErrorS(err, "compact failed", "rawKey", string(rawKey), "rev", rev)
+		w.lastCompactFailedRawKey = rawKey
 	}
 	return err
 }
